@@ -314,8 +314,85 @@ def _check_eg(case):
     return (unsorted, fp, None)
 
 
+class _Learned:
+    """score = sign_ * x0 + shift_, both learned by fit (sign_ = the direction in which the labels grow); an unfitted instance has no score"""
+
+    def __init__(self, flavour=0):
+        self.flavour = flavour
+
+    def get_params(self, deep=False):
+        return {"flavour": self.flavour}
+
+    def set_params(self, **kw):
+        self.flavour = kw.get("flavour", self.flavour)
+        return self
+
+    def fit(self, X, y, **kw):
+        x = np.asarray(X, dtype=float)[:, 0]
+        yv = np.asarray(y, dtype=float)
+        self.sign_ = 1.0 if (x[yv == 1].mean() if (yv == 1).any() else 0.0) >= (x[yv == 0].mean() if (yv == 0).any() else 0.0) else -1.0
+        self.shift_ = float(-np.median(x) * self.sign_)
+        return self
+
+    def __sklearn_is_fitted__(self):
+        return hasattr(self, "sign_")
+
+    def predict(self, X):
+        return self.sign_ * np.asarray(X, dtype=float)[:, 0] + self.shift_
+
+
+def _direct_cases(tier, seed):
+    return [("direct", seed * 7919 + i, i) for i in range(40 if tier == "quick" else 400)]
+
+
+def _check_direct(case):
+    """InterpolatedThresholder used on its own with prefit=False: fit trains a clone of the estimator and P(1) is a function of the TRAINED model's score.
+    The estimator's score depends on what fit saw, an unfitted one raises, and the constructor argument may carry a model trained on other data."""
+    from sklearn.utils import Bunch
+    from fairlearn.postprocessing._interpolated_thresholder import InterpolatedThresholder
+    from fairlearn.postprocessing._threshold_operation import ThresholdOperation
+    rng = np.random.default_rng(case[1])
+    fp = fingerprint(case)
+    n = int(rng.integers(6, 15))
+    groups = ["a", "b", "c"][: int(rng.integers(2, 4))]
+    g = [groups[i % len(groups)] for i in range(n)]
+    x = np.round(rng.normal(size=n), 2)
+    direction = 1.0 if rng.random() < 0.5 else -1.0
+    y = ((direction * x + 0.3 * rng.normal(size=n)) > 0).astype(int)
+    y[:2] = [0, 1]
+    X = x.reshape(-1, 1)
+    est = _Learned()
+    stale = case[2] % 2 == 1
+    if stale:            # the constructor argument was trained before, on data with the opposite direction
+        est.fit(-X, y)
+    idict = {}
+    for a in groups:
+        t0, t1 = sorted(float(v) for v in np.round(rng.normal(size=2), 2))
+        p0 = float(rng.choice([0.0, 0.25, 0.5, 1.0]))
+        idict[a] = Bunch(p0=p0, operation0=ThresholdOperation(">", t0), p1=1 - p0, operation1=ThresholdOperation(">", t1))
+    desc = f"InterpolatedThresholder(estimator={'trained elsewhere' if stale else 'unfitted'}, prefit=False, predict_method='predict') x={x.tolist()} y={y.tolist()} groups={g} " \
+           f"rules={ {a: (d.p0, d.operation0.threshold, d.p1, d.operation1.threshold) for a, d in idict.items()} }"
+    replay = {"case": list(case)}
+    try:
+        it = InterpolatedThresholder(estimator=est, interpolation_dict=idict, prefit=False, predict_method="predict").fit(X, y)
+        pm = np.asarray(it._pmf_predict(X, sensitive_features=g), dtype=float)
+        score = np.asarray(it.estimator_.predict(X), dtype=float)
+    except Exception as ex:
+        return (True, fp, ("C10:thresholder:direct:raises", f"fit/_pmf_predict raised {type(ex).__name__}: {str(ex)[:120]}; {desc}", replay))
+    ref = _Learned().fit(X, y)
+    if not np.allclose(score, ref.predict(X), atol=1e-12):
+        return (True, fp, ("C10:thresholder:direct:estimator_-not-trained-by-fit", f"estimator_ is not the model trained by fit on the given data; {desc}", replay))
+    for i in range(n):
+        d = idict[g[i]]
+        want = d.p0 * float(score[i] > d.operation0.threshold) + d.p1 * float(score[i] > d.operation1.threshold)
+        if abs(pm[i, 1] - want) > 1e-12 or abs(pm[i, 0] + pm[i, 1] - 1) > 1e-12:
+            return (True, fp, ("C10:thresholder:direct:pmf-vs-fitted-score", f"row {i} (group {g[i]!r}, fitted model's score {score[i]!r}): P(1)={pm[i, 1]!r}, the rule gives "
+                               f"{want!r}; {desc}", {**replay, "row": i}))
+    return (True, fp, None)
+
+
 def _check(case):
-    return _check_to(case) if case[0] == "to" else _check_eg(case)
+    return _check_to(case) if case[0] == "to" else _check_direct(case) if case[0] == "direct" else _check_eg(case)
 
 
 def run_bounded(rep):
@@ -327,6 +404,11 @@ def run_bounded(rep):
                    f"duplicated and shuffled; pmf validity / dependence on (score, group) only / monotonicity; predict over {to_cases[0][5]} seeds: "
                    "{0,1}, reproducible, deterministic at 0/1, exact binomial band (tail 1e-9) per row + pooled z<=6; non-trivial = some 0<p<1",
               bound=f"{len(to_cases)} fitted models, n <= 14 rows, <= 5 groups, {to_cases[0][5]} seeds each", cases=to_cases, check_case=_check, exhaustive=False)
+    dc = _direct_cases(rep.tier, rep.seed)
+    run_cases(rep, "thresholder_direct_prefit_false",
+              rule="InterpolatedThresholder on its own with prefit=False and hand-made '>' rules (2-3 groups, 6-14 rows): the estimator's score depends on what "
+                   "fit saw; constructor argument unfitted or trained on other data; P(1) per row against the rule evaluated on the fitted model's score",
+              bound=f"{len(dc)} fitted thresholders, n <= 14", cases=dc, check_case=_check, exhaustive=False)
     eg_cases = _eg_cases(rep.tier, rep.seed)
     cls = [c for c in eg_cases if c[0] == "cls"]
     reg = [c for c in eg_cases if c[0] == "reg"]
